@@ -14,4 +14,3 @@ func verifRootFromAuth(hashFunction HashFunction, leaf []uint8, leafIdx uint32, 
 	validateAuthPath(hashFunction, root, leaf, leafIdx, authPath, n, h, pubSeed, &nodeAddr)
 	return root
 }
-
